@@ -123,6 +123,8 @@ type universe struct {
 	kinds     []int // value kind per block (cycled)
 	depth     int
 	directSet bool // BlockCache.Set called directly (not through a transaction cache)
+	lateHash  bool // block caches are created under a provisional hash; SetBlockHash gives the real one right before Commit (block generators)
+	scRemove  bool // StateCache.Remove(key) is an event (drops the key's whole per-block map; only soundness can be demanded afterwards)
 	// C07 switches
 	mutateValues bool
 	demandHits   bool
@@ -146,6 +148,8 @@ func (e event) String() string {
 		return fmt.Sprintf("%s.txn%d.Commit", bname(e.B), e.T)
 	case 'S':
 		return fmt.Sprintf("%s.BlockCache.Set(%s)", bname(e.B), e.Key)
+	case 'X':
+		return fmt.Sprintf("StateCache.Remove(%s)", e.Key)
 	case 'C':
 		return fmt.Sprintf("%s.Commit", bname(e.B))
 	case 'g':
@@ -160,6 +164,11 @@ func (e event) String() string {
 
 func (u universe) events() []event {
 	var evs []event
+	if u.scRemove {
+		for _, k := range u.keys {
+			evs = append(evs, event{K: 'X', Key: k})
+		}
+	}
 	for b := range u.parents {
 		for t := 0; t < u.txns; t++ {
 			for _, k := range u.keys {
@@ -184,6 +193,7 @@ type world struct {
 	bcs       []*statecache.BlockCache
 	tcs       [][]*statecache.TransactionCache
 	committed []bool
+	forgot    bool // StateCache.Remove happened
 	cw, pend  []map[string]ent
 	ov        [][]map[string]ent
 }
@@ -197,7 +207,11 @@ func newWorld(u universe) *world {
 		if u.parents[b] >= 0 {
 			prev = bname(u.parents[b])
 		}
-		bc := statecache.NewBlockCache(w.sc, statecache.Block{Round: int64(b), Hash: bname(b), PrevHash: prev})
+		hash := bname(b)
+		if u.lateHash {
+			hash = "pending-" + bname(b)
+		}
+		bc := statecache.NewBlockCache(w.sc, statecache.Block{Round: int64(b), Hash: hash, PrevHash: prev})
 		w.bcs = append(w.bcs, bc)
 		w.cw = append(w.cw, map[string]ent{})
 		w.pend = append(w.pend, map[string]ent{})
@@ -314,7 +328,18 @@ func (w *world) apply(e event) (fail string) {
 			w.pend[e.B][k] = v
 		}
 		w.ov[e.B][e.T] = map[string]ent{}
+	case 'X':
+		w.sc.Remove(e.Key)
+		for b := range w.cw {
+			if w.committed[b] {
+				delete(w.cw[b], e.Key)
+				w.forgot = true // committed knowledge is gone: chains through these blocks may now legitimately skip them
+			}
+		}
 	case 'C':
+		if w.u.lateHash {
+			w.bcs[e.B].SetBlockHash(bname(e.B))
+		}
 		w.bcs[e.B].Commit()
 		w.committed[e.B] = true
 		w.cw[e.B] = w.pend[e.B]
